@@ -233,6 +233,11 @@ def fill_holes(mesh):
             return [hole], []
         # the hole is a quad, which we fill with two triangles
         if len(hole) == 4:
+            # the two triangles are joined along the diagonal `hole[0]-hole[2]`
+            # if that is already an edge of the mesh use the other diagonal
+            # as otherwise the edge would be shared by four faces
+            if (mesh.edges_sorted == np.sort(hole[[0, 2]])).all(axis=1).any():
+                hole = np.roll(hole, 1)
             face_A = hole[[0, 1, 2]]
             face_B = hole[[2, 3, 0]]
             return [face_A, face_B], []
